@@ -14,10 +14,34 @@ KEY_WEIGHT = "C08:ambiguous-multilocus-weight"
 
 
 class Names:
-    """injective numbering of the strings that occur in a case"""
-    def __init__(self): self.d = {}
+    """injective numbering of the strings that occur in a case.  Chromosome names and isoform ids are numbered
+       ORDER-PRESERVINGLY (Z order in the model = Python string order): the repaired select_noninformative compares them.
+       They must therefore be known in advance: Names(records, chrs)."""
+    ORDERED = ("chr", "iso")
+    def __init__(self, recs=(), chrs=()):
+        self.d = {}
+        for k, x in enumerate(sorted(set(chrs) | set(r["chr"] for r in recs))): self.d[("chr", x)] = k + 1
+        for k, x in enumerate(sorted(set(i for r in recs for i in r["isos"]))): self.d[("iso", x)] = k + 1
     def __call__(self, kind, s):
+        if kind in self.ORDERED: return self.d[(kind, s)]
         return self.d.setdefault((kind, s), len([1 for k in self.d if k[0] == kind]) + 1)
+
+
+def detect_repaired():
+    """which select_noninformative is checked out?  Run the real resolver on the two-record tie of the known finding
+       (coq/Multimap2.v tie1 / tie2) in both orders: the unrepaired code retains the first record of the list in either order
+       (-> models `..._unrepaired`), the repaired code the same alignment in both (-> the unsuffixed models)."""
+    from src.multimap_resolver import MultimapResolver, MultimapResolvingStrategy
+    from src.isoform_assignment import BasicReadAssignment, ReadAssignmentType
+    def mk(aid, c):
+        b = BasicReadAssignment.__new__(BasicReadAssignment)
+        b.__setstate__((aid, "r", c, 100, 200, 50, 300, False, False, ReadAssignmentType.noninformative.value, ReadAssignmentType.noninformative.value, 0.0, [], []))
+        return b
+    kept = []
+    for order in (("chrA", "chrB"), ("chrB", "chrA")):
+        res = MultimapResolver(MultimapResolvingStrategy.take_best).resolve([mk(i + 1, c) for i, c in enumerate(order)])
+        kept.append(frozenset(a.chr_id for a in res if a.assignment_type != ReadAssignmentType.suspended))
+    return kept[0] == kept[1]
 
 
 def gene_type_for(t, genes):
@@ -45,11 +69,25 @@ def ovl(r): return max(0, min(r["reg"][1], r["end"]) - max(r["reg"][0], r["start
 def rkey(r): return (r["read"], r["chr"], r["start"], r["end"], tuple(r["isos"]))
 
 
-PRE = """From IQ Require Import Multimap2.
+PRE_T = """From IQ Require Import Multimap2.
 Open Scope Z_scope.
-Definition check := run_check %s.
-Definition prop := run_spec.
+Definition check := run_check%s %%s.
+Definition prop := run_spec%s.
 """
+PRE_L_T = "From IQ Require Import Multimap2.\nOpen Scope Z_scope.\nDefinition check := load_check%s.\nDefinition prop := load_spec%s.\n"
+VARIANT = {"repaired": None}
+def suffix(): return "" if VARIANT["repaired"] else "_unrepaired"
+def pre(): return PRE_T % (suffix(), suffix())
+def pre_l(): return PRE_L_T % (suffix(), suffix())
+def set_variant(ctx):
+    VARIANT["repaired"] = rp = detect_repaired()
+    ctx.notes.append("select_noninformative variant detected on the two-record tie: %s -> models %s" %
+                     (("REPAIRED (same alignment retained in both orders)", "run_check / run_spec / load_check / load_spec (order independence required of every case)") if rp else
+                      ("UNREPAIRED (first record of the list retained)", "run_check_unrepaired / run_spec_unrepaired / load_check_unrepaired / load_spec_unrepaired")))
+    return rp
+def tie_key(is_tie):
+    """structural key of an order-dependence violation: the known finding only on the unrepaired code"""
+    return KEY_TIE if (is_tie and not VARIANT["repaired"]) else None
 
 
 def run(ctx):
@@ -60,6 +98,8 @@ def run(ctx):
     quick = ctx.tier == "quick"
     rnd = ctx.rnd
     ctx.prepare("C08.v")
+    repaired = set_variant(ctx)
+    PRE = pre()
 
     def mk_basic(r):
         b = BasicReadAssignment.__new__(BasicReadAssignment)
@@ -77,7 +117,7 @@ def run(ctx):
         return [(a.assignment_type.name, a.gene_assignment_type.name, bool(a.multimapper)) for a in res]
 
     def make_case(strategy, base, perms):
-        nm = Names(); runs = []
+        nm = Names(base); runs = []
         for p in perms:
             out = run_resolver(strategy, [base[i] for i in p])
             runs.append((p, out))
@@ -113,7 +153,7 @@ def run(ctx):
             sets = order_dependence(o)
             if sets is None: continue
             nod += 1
-            ctx.violation(KEY_TIE if tie_shape(o, sets) else None,
+            ctx.violation(tie_key(tie_shape(o, sets)),
                           "the set of retained alignments of one read depends on the order of its records", {"correspondence": name, "case": o})
         return nod
 
@@ -159,6 +199,8 @@ def run(ctx):
     ctx.rule("resolve (take_best) on real BasicReadAssignment objects: every multiset of <= 2 candidates from 9 types x primary/secondary x 5 loci "
              "(duplicate key seen from two regions, same isoform at other coordinates, other chromosome tying on (overlap, region start), same overlap with another region start; 3 penalties) "
              "and every multiset of 3 from %d types%s, each under ALL orders; non-trivial = some record suspended" % (6 if quick else 8, "" if quick else "; every multiset of 4 from 4 types x 3 loci"))
+    ctx.rule("the variant of select_noninformative is detected by running the real resolver on the two-record tie in both orders; on the unrepaired code the models `..._unrepaired` are used and an order-dependent "
+             "retained key set of tie shape is the known finding %s; on the repaired code the specification (run_spec, guard one_read_b) and the harness REQUIRE the same retained key set under every order" % KEY_TIE)
     ctx.notes.append("resolve_exhaustive: %d multisets, %d with an order-dependent retained key set" % (stat["n"], stat["nod"]))
     ctx.exhaustive = False
 
@@ -187,6 +229,23 @@ def run(ctx):
     ctx.rule("random lists of 4-10 records (all nine types incl. already suspended ones, 3 chromosomes, planted duplicates, penalties incl. positive ones, odd isoform/gene lists), identity + 4 random orders")
     nod = handle("resolve_random", "TakeBest", cases)
     ctx.notes.append("resolve_random: %d lists, %d with an order-dependent retained key set" % (len(cases), nod))
+    # ---- 2b. uninformative alignments only, built to tie: every component of the tie-break key of select_noninformative varies on its own
+    dom = [dict(read="r", chr=c, start=se[0], end=se[1], reg=rg, mm=mm, polya=False, ty=t, gty=t, pen4=0, isos=list(iso), genes=[])
+           for c in ("chrA", "chrB") for se in ((100, 200), (140, 240)) for rg in ((50, 300), (150, 400)) for iso in ((), ("T1",), ("T2",), ("T1", "T2"), ("T2", "T1"))
+           for t in ("noninformative", "intergenic") for mm in (False,)]
+    cases = []
+    for comb in itertools.combinations_with_replacement(range(len(dom)), 2):
+        cases.append(make_case(MultimapResolvingStrategy.take_best, with_ids([dom[i] for i in comb]), list(itertools.permutations(range(2)))))
+    for n, cnt in ((3, 1500 if quick else 20000), (4, 400 if quick else 5000)):
+        for _ in range(cnt):
+            base = [dict(rnd.choice(dom), mm=rnd.random() < .3) for _ in range(n)]
+            if rnd.random() < .5: base[1] = dict(base[0], **{f: base[1][f] for f in rnd.sample(["chr", "start", "isos", "reg", "ty"], rnd.randint(0, 2))})
+            if base[1]["start"] != base[0]["start"]: base[1]["end"] = base[1]["start"] + 100
+            cases.append(make_case(MultimapResolvingStrategy.take_best, with_ids(base), list(itertools.permutations(range(n)))))
+    ctx.rule("uninformative ties: lists of 2 (all), 3 and 4 (sampled) noninformative / intergenic records over 2 chromosomes x 2 (start, end) with equal overlap x 2 regions x 5 isoform lists (incl. the same set in both orders), "
+             "half of them built as a copy of the first record with <= 2 fields changed, under ALL orders: every component of the tie-break key (region start, chr_id, start, end, isoforms) decides on its own")
+    nod = handle("resolve_uninformative_ties", "TakeBest", cases)
+    ctx.notes.append("resolve_uninformative_ties: %d lists, %d with an order-dependent retained key set" % (len(cases), nod))
     for strat, sname in ((MultimapResolvingStrategy.merge, "Merge"), (MultimapResolvingStrategy.ignore_multimapper, "IgnoreMultimapper")):
         cases = []
         sub = [r for r in pool_all if r["mm"] is False and (r["chr"], r["reg"]) in (("chrA", (50, 300)), ("chrB", (50, 300)))]
@@ -194,7 +253,7 @@ def run(ctx):
             for comb in itertools.combinations_with_replacement(range(len(sub)), n):
                 if n == 3 and rnd.random() > (.15 if quick else 1): continue
                 cases.append(make_case(strat, with_ids([sub[i] for i in comb]), [tuple(range(n))]))
-        mism, _ = ctx.corr("resolve_" + sname, (PRE % sname).replace("Definition prop := run_spec.", "Definition prop (c:list rec * list (list nat * outcome (list verdict))) := true."), cases, shard=400)
+        mism, _ = ctx.corr("resolve_" + sname, (PRE % sname).replace("Definition prop := run_spec%s." % suffix(), "Definition prop (c:list rec * list (list nat * outcome (list verdict))) := true."), cases, shard=400)
         ctx.corr_report("resolve_" + sname, mism, [])
     ctx.rule("strategies merge / ignore_multimapper (not selectable from the command line): model = implementation only, incl. the TypeError of merge on two informative records")
 
@@ -344,10 +403,10 @@ def run_loader_path(ctx, quick, scenarios=None, replaying=False):
                 res[mode] = type(e).__name__; objs = []
         for f in os.listdir(work): os.remove(os.path.join(work, f))
         # the records as the resolver saw them (taken from the real compact objects)
-        nm = Names()
         def rec_of(b):
             return dict(aid=b.assignment_id, read=b.read_id, chr=b.chr_id, start=b.start, end=b.end, reg=b.genomic_region, mm=bool(b.multimapper), polya=bool(b.polyA_found),
                         ty=b.assignment_type.name, gty=b.gene_assignment_type.name, pen4=int(round(b.penalty_score * 4)), isos=list(b.isoforms), genes=list(b.genes))
+        nm = Names([rec_of(b) for c in chr_ids for b in basics[c]], chr_ids)
         def cout(o):
             if isinstance(o, str): return "(@Raises (list loaded) 9)"
             return "(Ok %s)" % clist(o, lambda l: clist(l, lambda x: "(%s, (%s, %s, %s))" % (cz(x[0]), TYN[x[1][0]], TYN[x[1][1]], cbool(x[1][2]))))
@@ -356,7 +415,7 @@ def run_loader_path(ctx, quick, scenarios=None, replaying=False):
         term = "(%s, %s, %s, %s)" % (fterm, cout(res["default"]), cout(res["high_memory"]), pterm)
         return term, {"scenario": {c: files[c] for c in chr_ids}, "chr_ids": chr_ids, "default": res["default"], "high_memory": res["high_memory"]}, objs
 
-    PRE_L = "From IQ Require Import Multimap2.\nOpen Scope Z_scope.\nDefinition check := load_check.\nDefinition prop := load_spec.\n"
+    PRE_L = pre_l()
     cases = []; wcases = []
     flags = {s: ReadWeightCounter(s).strategy_flags for s in COUNTING_STRATEGIES}
     n_scn = (250 if quick else 2500) if scenarios is None else len(scenarios)
@@ -392,11 +451,11 @@ def run_loader_path(ctx, quick, scenarios=None, replaying=False):
                     cnt = mkc(os.path.join(cdir, "c"), sname)
                     for ra in ras: cnt.add_read_info(ra)
                     tot = sum(Fraction(v).limit_denominator(1000) for f in cnt.feature_counter.values() for v in f.data.values())
-                    nm = Names()
                     recs = [dict(aid=ra.assignment_id, read=ra.read_id, chr=ra.chr_id, start=ra.exons[0][0], end=ra.exons[-1][1], reg=ra.genomic_region, mm=bool(ra.multimapper), polya=False,
                                  ty=ra.assignment_type.name, gty=ra.gene_assignment_type.name, pen4=0,
                                  isos=sorted(set(m.assigned_transcript for m in ra.isoform_matches if m.assigned_transcript)),
                                  genes=sorted(set(m.assigned_gene for m in ra.isoform_matches if m.assigned_gene))) for ra in ras]
+                    nm = Names(recs)
                     fl = flags[sname]
                     term = "(((Build_flags %s %s %s), %s), %s, (Qmake %s %d%%positive))" % (cbool(fl.use_ambiguous), cbool(fl.use_inconsistent_minor), cbool(fl.use_inconsistent), cbool(gl),
                                                                                           clist(recs, lambda r: crec(r, nm)), cz(tot.numerator), tot.denominator)
@@ -440,7 +499,7 @@ def run_pipeline(ctx, quick):
     load_mm = load_multimappers_fn(ctx)
     if load_mm is None: return
     rnd = ctx.rnd
-    PRE_L = "From IQ Require Import Multimap2.\nOpen Scope Z_scope.\nDefinition check := load_check.\nDefinition prop := load_spec.\n"
+    PRE_L = pre_l()
     PRE_W = "From Coq Require Import QArith.\nFrom IQ Require Import Multimap2 MultimapWeight.\nOpen Scope Z_scope.\nDefinition check := weight_check.\nDefinition prop := weight_prop.\n"
     lcases = []; wcases = []; nruns = 0; n_suppressed = 0; n_order_dep = 0
     base = P.scratch("c08pipe_")
@@ -513,11 +572,12 @@ def run_pipeline(ctx, quick):
                         for ra in pre[c]:
                             b = BasicReadAssignment(ra); cand[ra.read_id].append(dict(chr=c, start=b.start, end=b.end, reg=b.genomic_region, ty=b.assignment_type.name, isos=list(b.isoforms), read=b.read_id))
                     across_orders.setdefault((wi, mode), []).append((longer, retained, cand))
-                    nm = Names()
                     def rec_of(b):
                         return dict(aid=b.assignment_id, read=b.read_id, chr=b.chr_id, start=b.start, end=b.end, reg=b.genomic_region, mm=bool(b.multimapper), polya=bool(b.polyA_found),
                                     ty=b.assignment_type.name, gty=b.gene_assignment_type.name, pen4=int(round(b.penalty_score * 4)), isos=list(b.isoforms), genes=list(b.genes))
-                    fterm = clist(chr_ids, lambda c: "(%s, %s)" % (cz(nm("chr", c)), clist(pre[c], lambda ra: crec(rec_of(BasicReadAssignment(ra)), nm))))
+                    pre_recs = {c: [rec_of(BasicReadAssignment(ra)) for ra in pre[c]] for c in chr_ids}
+                    nm = Names([r for c in chr_ids for r in pre_recs[c]], chr_ids)
+                    fterm = clist(chr_ids, lambda c: "(%s, %s)" % (cz(nm("chr", c)), clist(pre_recs[c], lambda r: crec(r, nm))))
                     oterm = "(Ok %s)" % clist(chr_ids, lambda c: clist(post[c], lambda ra: "(%s, (%s, %s, %s))" % (cz(ra.assignment_id), TYN[ra.assignment_type.name], TYN[ra.gene_assignment_type.name], cbool(ra.multimapper))))
                     obj = dict(cfg, chr_ids=chr_ids, multi_mapped_records={c: [(ra.read_id, ra.assignment_id, ra.exons, ra.assignment_type.name, bool(ra.multimapper)) for ra in pre[c] if not ra.read_id.startswith("u_")] for c in chr_ids},
                                behind_loader={c: [(ra.read_id, ra.assignment_id, ra.assignment_type.name, ra.gene_assignment_type.name, bool(ra.multimapper)) for ra in post[c] if not ra.read_id.startswith("u_")] for c in chr_ids})
@@ -562,11 +622,11 @@ def run_pipeline(ctx, quick):
                             for f, inc in cnt.feature_counter.items():
                                 for v in inc.data.values(): per_feature[f] += Fraction(v).limit_denominator(1000); tot += Fraction(v).limit_denominator(1000)
                             if len(ras) > 1 or rnd.random() < .1:
-                                nm2 = Names()
                                 recs = [dict(aid=ra.assignment_id, read=ra.read_id, chr=ra.chr_id, start=ra.exons[0][0], end=ra.exons[-1][1], reg=ra.genomic_region, mm=bool(ra.multimapper), polya=False,
                                              ty=ra.assignment_type.name, gty=ra.gene_assignment_type.name, pen4=0,
                                              isos=sorted(set(m.assigned_transcript for m in ra.isoform_matches if m.assigned_transcript)),
                                              genes=sorted(set(m.assigned_gene for m in ra.isoform_matches if m.assigned_gene))) for ra in ras]
+                                nm2 = Names(recs)
                                 term = "(((Build_flags %s %s %s), %s), %s, (Qmake %s %d%%positive))" % (cbool(fl_.use_ambiguous), cbool(fl_.use_inconsistent_minor), cbool(fl_.use_inconsistent), cbool(gl),
                                                                                                       clist(recs, lambda r: crec(r, nm2)), cz(tot.numerator), tot.denominator)
                                 wcases.append((term, dict(cfg, read=rid, strategy=sname, table="gene" if gl else "transcript", retained_records=recs, total_added_by_the_real_counter=str(tot))))
@@ -582,7 +642,7 @@ def run_pipeline(ctx, quick):
                     if r1.get(rid) == r2.get(rid): continue
                     n_order_dep += 1; cs = cand[rid]
                     tie = all(is_non(r) for r in cs) and len(set((ovl(r), r["reg"][0]) for r in cs if ovl(r) == max(ovl(x) for x in cs))) == 1
-                    ctx.violation(KEY_TIE if tie else None, "the retained alignments of a read change with the order in which chromosomes are processed",
+                    ctx.violation(tie_key(tie), "the retained alignments of a read change with the order in which chromosomes are processed",
                                   {"world_seed": seed, "mode": mode, "read": rid, "candidates": cs, "retained_when_%s_first" % l1: sorted(r1.get(rid, [])), "retained_when_%s_first" % l2: sorted(r2.get(rid, []))})
     finally:
         shutil.rmtree(base, ignore_errors=True)
@@ -606,10 +666,10 @@ def replay(ctx, rep):
     if isinstance(case, dict) and "records" in case:
         from src.multimap_resolver import MultimapResolver, MultimapResolvingStrategy
         from src.isoform_assignment import BasicReadAssignment, ReadAssignmentType
-        ctx.prepare("C08.v")
+        ctx.prepare("C08.v"); set_variant(ctx)
         base = [dict(x, reg=tuple(x["reg"])) for x in case["records"]]; n = len(base)
         orders = list(itertools.permutations(range(n))) if n <= 5 else [tuple(x["order"]) for x in case["runs"]]
-        nm = Names(); runs = []
+        nm = Names(base); runs = []
         for p in orders:
             objs = []
             for x in (base[i] for i in p):
@@ -621,14 +681,14 @@ def replay(ctx, rep):
             runs.append((p, out)); print("order", p, "->", out)
         term = "(%s, %s)" % (clist(base, lambda x: crec(x, nm)), clist(runs, lambda t: "(%s, %s)" % (clist(t[0], cnat), cverdicts(t[1]))))
         obj = {"records": base, "runs": [{"order": list(p), "impl": o} for p, o in runs]}
-        mism, viol = ctx.corr("replay_resolve", PRE % "TakeBest", [(term, obj)])
+        mism, viol = ctx.corr("replay_resolve", pre() % "TakeBest", [(term, obj)])
         ctx.corr_report("replay_resolve", mism, viol)
         sets = set(frozenset(rkey(base[i]) for i, v in zip(p, o) if v[0] != "suspended") for p, o in runs if isinstance(o, list))
         if len(sets) > 1:
             tie = all(is_non(x) for x in base) and len(set((ovl(x), x["reg"][0]) for x in base if ovl(x) == max(ovl(y) for y in base))) == 1
-            ctx.violation(KEY_TIE if tie else None, "the set of retained alignments of one read depends on the order of its records", {"case": obj})
+            ctx.violation(tie_key(tie), "the set of retained alignments of one read depends on the order of its records", {"case": obj})
     elif isinstance(case, dict) and "scenario" in case and "chr_ids" in case:
-        ctx.prepare("C08.v")
+        ctx.prepare("C08.v"); set_variant(ctx)
         files = {c: [dict(d, exons=[tuple(e) for e in d["exons"]], matches=[tuple(m) for m in d["matches"]]) for d in v] for c, v in case["scenario"].items()}
         for c in BLOCKS: files.setdefault(c, [])
         run_loader_path(ctx, True, scenarios=[(files, list(case["chr_ids"]))], replaying=True)
